@@ -88,6 +88,19 @@ func Harness_C02_pathBuilder() {
 	if direct && len(leaf.AuthorityKeyId) == 0 {
 		vAssert(len(chains) > 0, "a leaf directly issued by a trusted root is accepted")
 	}
+	// key identifiers are hints: a mismatch between the child's authority key identifier and the
+	// issuer's subject key identifier does not hide the issuer when no certificate of the pool
+	// carries the child's identifier
+	named := leaf.RawIssuer[0] == root.RawSubject[0] && c02Sig[[2]byte{1, 3}] && c02CanSign(root)
+	if named && !(len(inter.SubjectKeyId) > 0 && len(leaf.AuthorityKeyId) > 0 && inter.SubjectKeyId[0] == leaf.AuthorityKeyId[0]) {
+		vAssert(len(chains) > 0, "a leaf named and validly signed by a trusted root is accepted whatever its key identifier hints say")
+	}
+	via := leaf.RawIssuer[0] == inter.RawSubject[0] && c02Sig[[2]byte{1, 2}] && c02CanSign(inter) &&
+		inter.RawIssuer[0] == root.RawSubject[0] && c02Sig[[2]byte{2, 3}] && c02CanSign(root)
+	if via && !(len(root.SubjectKeyId) > 0 && len(leaf.AuthorityKeyId) > 0 && root.SubjectKeyId[0] == leaf.AuthorityKeyId[0]) &&
+		!(len(inter.SubjectKeyId) > 0 && inter.SubjectKeyId[0] == inter.AuthorityKeyId[0]) {
+		vAssert(len(chains) > 0, "the honest chain through the submitted intermediate is accepted whatever the key identifier hints say")
+	}
 	if len(chains) > 0 {
 		vReach("found")
 	} else {
